@@ -267,7 +267,19 @@ def _eval_evolve(case):
             res.fail("msbar_masses.evolve/raises", f"{where}: {type(e).__name__}: {e}")
             return res
     g3 = (lambda nf: float(mm.gamma(4, nf))) if order == 4 else None
+    seen_a = []
+
+    def a_of(s, nf, _f=a_of):  # noqa: F811  (records the couplings the reference walk needs)
+        v = _f(s, nf)
+        seen_a.append(v)
+        return v
+
     lo, hi, ncross = M.walk(m2_ref, origin, target, walls, ratios, a_of, order, method, g3)
+    if not all(math.isfinite(v) and 0 < v <= 0.6 / (4 * math.pi) for v in seen_a):
+        # the walk would need alpha_s beyond 0.6 (or through the Landau pole): outside the domain of the statement
+        res.outcome = "evolve/outside-perturbative-domain"
+        res.nontrivial = False
+        return res
     devs = [abs(float(mp.mpf(got) / r - 1)) for r in (lo, hi)]
     dev = min(devs)
     tol = 2e-7  # the code carries 6 printed digits in the three-loop constants
